@@ -614,12 +614,12 @@ def load_corpus():
 def correspondence(run):
     corpus = load_corpus()
     terms, meta = [], []
-    c_limit(run, run.n(260, 2500), terms, meta)
+    c_limit(run, run.n(400, 3000), terms, meta)
     c_sized(run, 0, terms, meta)
-    c_final(run, run.n(450, 6000), terms, meta, corpus)
-    c_quota(run, run.n(250, 3000), terms, meta)
-    c_mul(run, run.n(400, 5000), terms, meta, corpus)
-    c_call(run, run.n(200, 2500), terms, meta)
+    c_final(run, run.n(900, 8000), terms, meta, corpus)
+    c_quota(run, run.n(400, 4000), terms, meta)
+    c_mul(run, run.n(800, 8000), terms, meta, corpus)
+    c_call(run, run.n(400, 4000), terms, meta)
     # the property's predicate on every case, whatever the model says
     flagged = set()
     for i, (kind, inp, obs, pred) in enumerate(meta):
@@ -772,27 +772,27 @@ def sweep_tasks(rows, Ns, max_variants):
             tasks.append({"kind": "sweep", "id": "%s|%s|%s|%d" % (r["fn"], r["payload"], r["key"], N), "fd": r["idx"],
                           "key": r["key"], "N": N, "mode": mode, "max_variants": max_variants,
                           "_row": {"fn": r["fn"], "payload": r["payload"], "key": r["key"], "mode": mode,
-                                   "typed": not (r["acc_int"] or r["acc_str"])}})
+                                   "typed": not r["acc_int"]}})
     return tasks
 
 
 def o_sweep(run, deep):
     rows = registry()
     unc = sorted({"%s(%s)" % (r["payload"], r["key"]) for r in rows
-                  if r["kind"] == "PEager" and r["acc_iter"] and (r["acc_int"] or r["acc_str"])})
+                  if r["kind"] == "PEager" and r["acc_iter"] and r["acc_int"]})
     run.cov["uncovered"].append({"what": "object-typed parameters (accept an iterator AND scalars): outside "
                                          "C08_typed_params_limited, exercised by the endless-source sweep only",
                                  "count": len(unc), "parameters": unc})
     for r in rows:           # the P statement, directly on the live registry (gives the concrete replay when P breaks)
-        if r["kind"] == "PEager" and r["acc_iter"] and not (r["acc_int"] or r["acc_str"]) and not r["limiting"]:
+        if r["kind"] == "PEager" and r["acc_iter"] and not r["acc_int"] and not r["limiting"]:
             run.fail("violation", "parameter declared with a collection type does not limit what it is given: %s(%s)" % (r["payload"], r["key"]),
                      {"kind": "typed-param", "function": r["fn"], "payload": r["payload"], "parameter": r["key"],
                       "observed": "value_type.convert(endless iterator) under yaql.limitIterators=%d delivered %s items without CollectionTooLargeException"
                                   % (gen_limitfacts.PROBE_LIMIT, r["pulls"]),
                       "required": "CollectionTooLargeException after at most %d pulls" % (gen_limitfacts.PROBE_LIMIT + 1),
                       "theorem": "C08_typed_params_limited"})
-    Ns = [2] if run.quick and not deep else [0, 1, 3]
-    tasks = sweep_tasks(rows, Ns, 6 if run.quick and not deep else 14)
+    Ns = [0, 2] if run.quick and not deep else [0, 1, 2, 3, 5]
+    tasks = sweep_tasks(rows, Ns, 6 if run.quick and not deep else 16)
     if run.quick and not deep:
         pass
     pool = Pool()
@@ -933,6 +933,10 @@ def check_quota_result(run, t, res, c):
     if out == "Ok" and res.get("size") is not None and res["size"] > Q and res.get("kind") in ("str", "tuple", "list", "frozenset", "set", "dict", "FrozenDict"):
         data["required"] = "MemoryQuotaExceededException instead of a %d-byte value" % res["size"]
         run.fail("violation", "evaluation of `%s` returned a value whose own size exceeds the quota" % generalise(t["expr"]), data)
+    if t.get("deep") and out == "Ok" and (res.get("deep_max") or 0) > Q:
+        data["observed"]["largest_own_size_inside_result"] = res["deep_max"]
+        data["required"] = "MemoryQuotaExceededException: a function call inside the expression produced a %d-byte value" % res["deep_max"]
+        run.fail("violation", "a value above the quota, produced by a function call inside `%s`, was returned nested in the result" % generalise(t["expr"]), data)
     if res.get("args_over_quota"):
         data["required"] = "no value above the quota is passed on to a function"
         run.fail("violation", "an over-quota value was passed on to %s" % res["args_over_quota"][0][0], data)
@@ -945,11 +949,11 @@ def o_quota(run, deep):
     tasks, info = [], {}
     k = 0
 
-    def add(expr, Q, ctx, would=None, raw=True):
+    def add(expr, Q, ctx, would=None, raw=True, deep=False):
         nonlocal k
         k += 1
         t = {"kind": "expr", "id": "q%d" % k, "expr": expr, "Q": Q, "ctx": ctx, "trace": True, "raw": raw,
-             "record_args": True, "seconds": 8}
+             "record_args": True, "seconds": 8, "deep": deep}
         tasks.append(t)
         info[t["id"]] = {"would_allocate": would}
 
@@ -996,6 +1000,21 @@ def o_quota(run, deep):
         form, ctx = forms[i % len(forms)]
         kk = run.rng.choice([2, 5, 9, 14, 20])
         add(form % {"k": kk}, run.rng.choice([60, 90, 120, 200, 300, 500]), ctx)
+    # values created by a function call inside a lambda / a literal: they end up NESTED in the result,
+    # so only the result check of runner.call stands between them and the caller
+    nested = [
+        ("[1, 2].select($s + $s)", {"s": ["str", 30, 97]}),
+        ("[1, 2].select($s * %(k)d)", {"s": ["str", 12, 97]}),
+        ("[$s + $s, 1]", {"s": ["str", 33, 97]}),
+        ("{a => $s + $s + $s}", {"s": ["str", 25, 97]}),
+        ("[1].select($l + $l)", {"l": ["tuple", 7]}),
+        ("[[1, 2].select($s.replace('a', 'bbb'))]", {"s": ["str", 30, 97]}),
+        ("[1, 2].select('-'.join([$s, $s, $s]))", {"s": ["str", 20, 97]}),
+        ("[1, 2, 3].select(range($ * %(k)d).toList())", {}),
+    ]
+    for i in range(len(nested) * (3 if run.quick and not deep else 12)):
+        form, ctx = nested[i % len(nested)]
+        add(form % {"k": run.rng.choice([3, 5, 9])}, run.rng.choice([90, 100, 110, 128, 150, 200]), ctx, deep=True)
     pool = Pool(deadline=14.0)
     results = pool.run(tasks)
     for t in tasks:
@@ -1108,7 +1127,7 @@ def replay(run, data):
     if kind == "typed-param":
         for r in registry():
             if r["payload"] == d["payload"] and r["key"] == d["parameter"]:
-                return not (r["acc_iter"] and not (r["acc_int"] or r["acc_str"]) and not r["limiting"])
+                return not (r["acc_iter"] and not r["acc_int"] and not r["limiting"])
         return True
     if kind == "sweep":
         t = d["replay_task"]
@@ -1119,7 +1138,8 @@ def replay(run, data):
                    for c in res.get("calls", []))
     if kind == "expr":
         t = {"kind": "expr", "id": "replay", "expr": d["expr"], "N": d.get("N"), "Q": d.get("Q"), "ctx": d.get("ctx"),
-             "trace": bool(d.get("Q")), "seconds": 5, "record_args": bool(d.get("Q")), "raw": bool(d.get("Q")) and bool(d.get("ctx"))}
+             "trace": bool(d.get("Q")), "seconds": 5, "record_args": bool(d.get("Q")), "raw": bool(d.get("Q")) and bool(d.get("ctx")),
+             "deep": "largest_own_size_inside_result" in (d.get("observed") or {})}
         sub = type(run)(run.pid, run.tier, run.seed)
         try:
             res = Pool(nworkers=1).run([t]).get("replay", {})
